@@ -28,7 +28,7 @@ TRAIT_QUERY_METHODS = [
     ("wasm::Wasm", "dump_wasm_raw"), ("wasm::Wasm", "contract_storage"),
 ]
 INHERENT_QUERY_FNS = ["wasm::WasmKeeper::query_smart", "wasm::WasmKeeper::query_raw", "wasm::WasmKeeper::with_storage_readonly",
-                      "app::Router::querier", "app::RouterQuerier::new", "wasm::WasmKeeper::instance_count",
+                      "app::Router::querier", "app::RouterQuerier::new",
                       "bank::BankKeeper::get_balance"]
 WRITERS = {"set", "remove"}
 STORE_WRITERS = {"save", "remove", "update", "clear", "push_back", "push_front", "pop_back", "pop_front"}
